@@ -78,11 +78,30 @@ func c10WireAtomic(conn *env.Conn, desc func() string) {
 			}
 		}
 	}
-	for w, buf := range conn.Attempts {
-		if _, n, err := env.Decode(buf); err != nil || n != len(buf) {
-			vrt.Failf("c10/write-not-one-packet", "Write #%d on connection %d is not exactly one well-formed packet (% x): %v\n%s", w, conn.ID, buf, err, desc())
+	// what reached the peer, in order, is a concatenation of whole packets (a tail cut off by the end
+	// of the connection excepted)
+	var stream []byte
+	for _, ch := range conn.Chunks {
+		stream = append(stream, ch.Data...)
+	}
+	for off := 0; off < len(stream); {
+		_, n, err := env.Decode(stream[off:])
+		if err == env.ErrIncomplete {
+			break
+		}
+		if err != nil {
+			lo := off
+			if lo > 8 {
+				lo = off - 8
+			}
+			hi := off + 24
+			if hi > len(stream) {
+				hi = len(stream)
+			}
+			vrt.Failf("c10/stream-not-whole-packets", "the byte stream on connection %d stops being a sequence of whole packets at offset %d (...% x...): %v\n%s", conn.ID, off, stream[lo:hi], err, desc())
 			return
 		}
+		off += n
 	}
 }
 
@@ -99,6 +118,14 @@ func c10BaseOp(cli *mqtt.BaseClient, op string, i int) {
 	switch op {
 	case "pub0", "pub1", "pub2":
 		cli.Publish(ctx, &mqtt.Message{Topic: "t", QoS: mqtt.QoS(op[3] - '0'), Payload: []byte(tag)})
+	case "pub0big", "pub1big":
+		// payloads larger than 32 KiB and than 64 KiB
+		n := 40000 + 30000*i
+		pl := make([]byte, n)
+		for j := range pl {
+			pl[j] = byte('a' + i)
+		}
+		cli.Publish(ctx, &mqtt.Message{Topic: "t/" + tag, QoS: mqtt.QoS(op[3] - '0'), Payload: pl})
 	case "pub1x", "pub2x":
 		// never acknowledged: returns when its own short deadline expires, while the reader keeps
 		// dispatching the acknowledgements of the other caller and of a follow-up request
@@ -173,6 +200,38 @@ func runC10(c *Ctx) {
 				lastNet = net
 			}
 		}
+	}
+	c.Bound("base-large", "BaseClient: a 40,000-byte and a 70,000-byte PUBLISH (QoS 0|1) running concurrently with each other / with a small QoS 1 publish / a subscribe, and with the reader's acknowledgements; chunked transport; same budgets")
+	for _, pr := range [][2]string{{"pub0big", "pub0big"}, {"pub1", "pub0big"}, {"sub", "pub1big"}} {
+		a, b := pr[0], pr[1]
+		var net *env.Net
+		sc := &vrt.Scenario{
+			Name:  fmt.Sprintf("C10/base-large/%s+%s", a, b),
+			Bound: vrt.Budget{P: p, S: 1},
+			Cfg:   vrt.Config{Race: true, Horizon: int64(60 * time.Second), StepCap: 100000},
+			Body: func() {
+				net = env.NewNet()
+				s := env.NewScript(net)
+				s.Conn.Chunked = true
+				c10AutoPeer(s, true)
+				cli := &mqtt.BaseClient{Transport: s.Conn}
+				cli.Handle(mqtt.HandlerFunc(func(*mqtt.Message) {}))
+				if _, err := cli.Connect(vctx.Background(), "c10"); err != nil {
+					vrt.Failf("harness", "connect: %v", err)
+					return
+				}
+				vrt.Go("op-"+a, func() { c10BaseOp(cli, a, 0) })
+				vrt.Go("op-"+b, func() { c10BaseOp(cli, b, 1) })
+				vrt.Quiesce()
+				desc := func() string {
+					return fmt.Sprintf("%d writes, %d chunks delivered", len(s.Conn.Attempts), len(s.Conn.Chunks))
+				}
+				c10WireAtomic(s.Conn, desc)
+				c10ReportRaces("BaseClient "+a+"+"+b, desc)
+			},
+			Observe: func() uint64 { return net.TraceHash() },
+		}
+		c.Explore(sc)
 	}
 	c.Bound("two-clients", "two independent BaseClients (package-level state is shared) running Connect / Connect+Publish concurrently; P<=2 S<=1; race monitor on")
 	for _, op2 := range []string{"connect", "pub1", "ping"} {
